@@ -2,11 +2,11 @@
 from . import vise, core
 PID = 'C03'
 MC = ['C03_AtMostOneInputMove', 'C03_FirstMatchWins', 'C03_NoMatchGoesToCatch']
-TR = ['C03_Step', 'C03_NoMatch', 'C03_InmatchCleared']
+TR = ['C03_Step', 'C03_NoMatch', 'C03_InmatchCleared', 'C03_MessageShown']
 
 
 def run(tier):
-    f = vise.Family(PID, tier, MC, TR, ['nav', 'flags', 'ends'], modes=('L', 'P') if tier == 'thorough' else ('L',))
+    f = vise.Family(PID, tier, MC, TR, ['nav', 'flags', 'pages'], modes=('L', 'P'))
     f.out.assumptions = ['instruction-level hook in vm.Run (build tag verif) records complete pre/post state per loop iteration',
                          'model programs + seeded random well-formed programs; selector alphabet of each program + junk inputs']
     t = f.thorough
